@@ -267,6 +267,33 @@ def id_reuse_patterns(r):
     return out
 
 
+def full_queue_patterns(r):
+    """the reassembled message is refused (the queue holds 6 undelivered frames, or a frame with the same origin, id and
+    type), the application then reads, and the tail of the refused message is received again"""
+    out = []
+    for nfrag in (2, 3):
+        for typ in (0, 1, 2, 5):
+            for how in ("full", "same-key"):
+                for tail in (1, 2):
+                    if tail >= nfrag + 1:
+                        continue
+                    big = mk_msg(r, 0o1, 40, nfrag, typ=typ)
+                    fb = fragments(big)
+                    if how == "full":
+                        pre = [mk_msg(r, 0o2, 100 + j, 1, typ=9) for j in range(6)]
+                    else:
+                        pre = [mk_msg(r, 0o1, 40, 1, typ=typ)]      # same origin, id and type as the big one
+                    msgs = pre + [big]
+                    kbig = len(pre)
+                    st = [("arr", fragments(m)[0], (j, 0)) for j, m in enumerate(pre)]
+                    st += [("arr", fb[i], (kbig, i)) for i in range(nfrag)]
+                    st += [("deq",)]
+                    st += [("arr", fb[i], (kbig, i)) for i in range(nfrag - tail, nfrag)]
+                    st += [("deq",)] * 8
+                    out.append((msgs, st))
+    return out
+
+
 def random_stream(r):
     ns = r.randrange(1, 4)
     same = r.random() < 0.5
@@ -338,6 +365,7 @@ def run(rep, model, tier, seed):
         cases += two_sender_interleavings(r, n1, n2, True)
         cases += two_sender_interleavings(r, n1, n2, False)
     cases += id_reuse_patterns(r)
+    cases += full_queue_patterns(r)
     for i in range(0, len(cases), 3000):
         check_batch(rep, model, cases[i:i + 3000], "exhaustive")
     rep.exhaustive.append("%d single-message drop/dup/swap patterns and two-sender interleavings" % len(cases))
